@@ -92,6 +92,18 @@ def check(R):
             te, fe = field_bool_edges(d0, 'armed:' + guard)
             mods = [t.bb for t in d0.calls() if t.d.get('f', '').endswith('Signal::modify')]
             R.expect('P3', d0.fn, 'an armed guard always resets the slot on drop', bool(te) and bool(mods) and not prims.always_followed_by(d0, [e[1] for e in te], mods), 'armed -> signal.modify(.. = Idle)', 'armed path skips the reset')
+            # ... whatever is in it: a deposited answer that the cancelled waiter never consumed (Resolved / Found) occupies the slot just
+            # like an outstanding request - the closure leaves the state alone only on the `already Idle` edge
+            st_adt = guard.replace('transport::', 'transport::network::mdns::').replace('Guard', 'State')
+            for dc in [b for b in db if b.kind == 'closure']:
+                wr = sorted({i for i, j, st in dc.stmts() if st[0][0] == 2 and st[0][1:] == ['*'] and not dc.is_cleanup(i)})
+                R.floor(f'`*state = ..` in the drop closure of {guard}', len(wr), 1)
+                idle, other = prims.enum_local_edges(F, dc, lambda pl: pl[0] == 2, st_adt, ['Idle'])
+                r = prims.reach(dc, (0,), cut_edges=idle, cut_blocks=set(wr))
+                R.expect('P3', dc.fn, 'every state other than Idle is reset to Idle when the guard drops', bool(idle) and not (set(dc.ret_blocks()) & r), 'only the Idle edge skips the reset',
+                         'a non-Idle state (a deposited but unconsumed answer) can leave the closure untouched: the slot is never released and every later waiter blocks forever')
+                vals = {st[1].get('var') for i, j, st in dc.stmts() if st[1].get('op') == 'agg' and st[1].get('adt') == st_adt}
+                R.expect('P6', dc.fn, 'the slot is reset to Idle', vals == {'Idle'}, 'Idle', f'{sorted(vals)}')
 
     # ---- c --------------------------------------------------------------------
     with R.clause('c'):
